@@ -160,10 +160,13 @@ class SimulationProductState(
         columns = []
         selected_order: list[ops.Qid] = []
         q_set = set(qubits)
+        # One random source for all factors: handing each factor the same integer seed would
+        # make the samples of independent qubits identical.
+        prng = value.parse_random_state(seed)
         for v in dict.fromkeys(self.sim_states.values()):
             qs = [q for q in v.qubits if q in q_set]
             if any(qs):
-                column = v.sample(qs, repetitions, seed)
+                column = v.sample(qs, repetitions, prng)
                 columns.append(column)
                 selected_order += qs
         stacked = np.column_stack(columns)
